@@ -9,6 +9,7 @@ import (
 	"time"
 
 	"mellium.im/xmpp/history"
+	"mellium.im/xmpp/ibb"
 	"mellium.im/xmpp/jid"
 	"mellium.im/xmpp/stanza"
 
@@ -264,6 +265,39 @@ var rules = []rule{
 			return []piece{st(pres(pick(r, "subscribe", "probe", "error"), peerJID, el("show", "").text("away"), el("status", "").text("x")))}
 		}
 		return []piece{st(msg("", "x7", el("body", "").text("a"), el("request", nsReceipts), el("x", nsConf, "jid", roomJID), el("received", nsCarbons).add(forwardedMsg("b"))))}
+	}},
+	{"ibb-local-close-fails", func(r *rand.Rand) []piece {
+		// the application closes an IBB stream itself and that Close fails (or
+		// races with inbound data); the peer then goes on naming the stream
+		mode := pick(r, "withhold", "withhold", "error-close", "data-error", "concurrent")
+		var ps []piece
+		sid, next := "so", 1
+		if r.Intn(2) == 0 {
+			ps = append(ps, act("ibb.open"), st(iq("result", "o1")), await("ibb.open"), st(ibbData("set", "o2", "so", 0, "aGVsbG8=")))
+		} else {
+			sid = "si"
+			ps = append(ps, st(iq("set", "i1", el("open", nsIBB, "block-size", "4096", "sid", "si", "stanza", "iq"))))
+			next = r.Intn(3)
+			for i := 0; i < next; i++ {
+				ps = append(ps, st(ibbData("set", fmt.Sprintf("i-d%d", i), "si", i, "aGVsbG8gd29ybGQ=")))
+			}
+		}
+		name := "ibb.closefail/" + sid + "/" + mode
+		ps = append(ps, act(name))
+		if mode != "concurrent" {
+			ps = append(ps, await(name))
+		}
+		ps = append(ps, st(ibbData("set", "lc1", sid, next, "QUJD")))
+		if r.Intn(2) == 0 {
+			ps = append(ps, st(msg("", "lc2", el("data", nsIBB, "seq", fmt.Sprint(next+1), "sid", sid).text("QUJD"))))
+		}
+		ps = append(ps, st(ibbData("set", "lc3", sid, 7, "QUJD"))) // wrong seq
+		if mode == "concurrent" {
+			ps = append(ps, await(name))
+		}
+		ps = append(ps, st(iq("set", "lc4", el("close", nsIBB, "sid", sid))))
+		ps = append(ps, st(ibbData("set", "lc5", sid, next+2, "QUJD"))) // data for the closed stream
+		return ps
 	}},
 	{"stream-level", func(r *rand.Rand) []piece {
 		return []piece{rawPiece(pick(r, " ", "\n\n", "<!-- c -->", "<?pi?>", "text", "<x xmlns='urn:example:top'/>", "<features xmlns='"+nsStream+"'/>",
@@ -547,6 +581,49 @@ func (e *env) runAct(name string) *action {
 		a.detached = true
 		return a
 	}
+	if strings.HasPrefix(name, "ibb.closefail/") {
+		f := strings.Split(name, "/")
+		if len(f) != 3 || e.served() {
+			return nil
+		}
+		sid, mode := f[1], f[2]
+		// the stream: opened by the application, or accepted by its acceptor
+		var conn *ibb.Conn
+		for i := 0; i < 250 && conn == nil; i++ {
+			e.mu.Lock()
+			if e.outConn != nil && e.outConn.SID() == sid {
+				conn = e.outConn
+			}
+			for _, c := range e.conns {
+				if c.SID() == sid {
+					conn = c
+				}
+			}
+			e.mu.Unlock()
+			if conn == nil {
+				time.Sleep(200 * time.Microsecond)
+			}
+		}
+		if conn == nil {
+			return nil
+		}
+		e.mu.Lock()
+		e.ibbAck = mode // what the peer does with this stream's <close/> / <data/> requests from now on
+		e.mu.Unlock()
+		return e.start(name, "", func(ctx context.Context) (bool, error) {
+			conn.SetWriteDeadline(time.Now().Add(40 * time.Millisecond))
+			if mode == "data-error" {
+				conn.Write([]byte("0123456789")) // buffered: Close has to flush it first
+			}
+			err := conn.Close()
+			if err != nil {
+				e.note("ibb_local_close_failed")
+			} else {
+				e.note("ibb_local_close_ok")
+			}
+			return err == nil, err
+		})
+	}
 	return nil
 }
 
@@ -640,6 +717,17 @@ func runScript(c *core.Case, sc *script) {
 	e.histClose = sc.HistClose - 1
 	e.mu.Lock()
 	e.autoReply = func(req *xmltree.Node) string {
+		e.mu.Lock()
+		mode := e.ibbAck
+		e.mu.Unlock()
+		isClose, isData := req.Child(nsIBB, "close") != nil, req.Child(nsIBB, "data") != nil
+		errReply := fmt.Sprintf("<iq xmlns='jabber:client' type='error' id='%s' from='%s' to='%s'><error type='cancel'><item-not-found xmlns='%s'/></error></iq>", escAttr(req.Attr("id")), peerJID, meJID, nsStanzas)
+		switch {
+		case isClose && (mode == "withhold" || mode == "concurrent"):
+			return "" // the peer never acknowledges the <close/>: the write deadline ends Close
+		case isClose && mode == "error-close", isData && mode == "data-error":
+			return errReply
+		}
 		return fmt.Sprintf("<iq xmlns='jabber:client' type='result' id='%s' from='%s' to='%s'/>", escAttr(req.Attr("id")), peerJID, meJID)
 	}
 	e.mu.Unlock()
@@ -799,6 +887,9 @@ func (e *env) report(sc *script) {
 			if typ == "error" && (id == "i3" || id == "i4" || id == "i5") {
 				c.Count("h_ibb_refused", 1)
 			}
+			if strings.HasPrefix(id, "lc") && e.obs["ibb_local_close_failed"] > 0 {
+				c.Count("ibb_packets_answered_after_failed_local_close", 1)
+			}
 		case "message":
 			if k := n.Child(nsReceipts, "received"); k != nil {
 				c.Count("h_receipts_request", 1)
@@ -808,7 +899,8 @@ func (e *env) report(sc *script) {
 	for _, kv := range [][2]string{{"roster_push", "h_roster"}, {"block", "h_block"}, {"unblock", "h_unblock"}, {"unblock_all", "h_unblock"},
 		{"carbons", "h_carbons"}, {"caps", "h_caps"}, {"muc_invite", "h_muc_invite"}, {"muc_direct_invite", "h_muc_direct_invite"},
 		{"muc_user_presence", "h_muc_presence"}, {"muc_joined", "h_muc_join"}, {"history_inner", "h_history_inner"}, {"history_tracked", "h_history_tracked"},
-		{"receipts_unhandled", "h_receipts_received"}, {"ibb_bytes", "h_ibb_bytes"}} {
+		{"receipts_unhandled", "h_receipts_received"}, {"ibb_bytes", "h_ibb_bytes"},
+		{"ibb_local_close_failed", "ibb_local_close_failed"}, {"ibb_local_close_ok", "ibb_local_close_ok"}} {
 		if e.obs[kv[0]] > 0 {
 			c.Count(kv[1], e.obs[kv[0]])
 		}
